@@ -48,6 +48,48 @@ def make_copy(repo: str) -> str:
     return tmp
 
 
+def apply_patch(root: str, patch_rel: str) -> Tuple[bool, str]:
+    """Apply a stored unified diff (seeded/<id>/patch.diff) to the scratch copy; both sides are LF-normalised
+    because /repo's working tree mixes LF and CRLF files."""
+    src = os.path.join(VERIF, patch_rel)
+    if not os.path.exists(src):
+        return False, f"patch {patch_rel} missing"
+    with open(src, "rb") as fh:
+        data = fh.read().replace(b"\r\n", b"\n")
+    touched = []
+    for line in data.decode("utf-8", "replace").splitlines():
+        if line.startswith("+++ b/"):
+            touched.append(line[6:].strip())
+    for rel in touched:
+        q = os.path.join(root, rel)
+        if os.path.exists(q):
+            with open(q, "rb") as fh:
+                raw = fh.read()
+            if b"\r\n" in raw:
+                with open(q, "wb") as fh:
+                    fh.write(raw.replace(b"\r\n", b"\n"))
+    norm = os.path.join(root, "_variant.diff")
+    with open(norm, "wb") as fh:
+        fh.write(data)
+    for cmd in (["patch", "-p1", "-s", "-i", norm], ["git", "apply", "-p1", norm]):
+        try:
+            p = subprocess.run(cmd, cwd=root, capture_output=True, text=True)
+        except FileNotFoundError:
+            continue
+        if p.returncode == 0:
+            break
+        return False, f"patch does not apply: {(p.stdout + p.stderr)[-200:]}"
+    else:
+        return False, "neither patch nor git is available"
+    for rel in touched:
+        if rel.endswith(".py") and os.path.exists(os.path.join(root, rel)):
+            try:
+                py_compile.compile(os.path.join(root, rel), doraise=True, cfile=os.path.join(root, "_tmp.pyc"))
+            except py_compile.PyCompileError as exc:
+                return False, f"variant does not compile: {exc}"
+    return True, ""
+
+
 def apply_edits(root: str, edits: List[Dict[str, str]]) -> Tuple[bool, str]:
     for e in edits:
         path = os.path.join(root, e["file"])
@@ -72,7 +114,9 @@ def apply_edits(root: str, edits: List[Dict[str, str]]) -> Tuple[bool, str]:
 def run_variant(v: Dict[str, Any], repo: str) -> Dict[str, Any]:
     tmp = make_copy(repo)
     try:
-        ok, why = apply_edits(tmp, v["edits"])
+        ok, why = apply_patch(tmp, v["patch"]) if "patch" in v else (True, "")
+        if ok:
+            ok, why = apply_edits(tmp, v.get("edits", []))
         if not ok:
             return {"id": v["id"], "status": "STALE", "why": why}
         results = {}
